@@ -259,8 +259,8 @@ def tfn_suites(ctx, exe, tier):
 # family -> (quick size, thorough size); None = all
 SIZES = {
     'form': (900, None), 'form-token': (300, None), 'block-skel': (300, None),
-    'block': (200, None), 'block3': (0, 1500), 'expr': (1500, None),
-    'prog': (40, 600), 'corpus': (3000, 12000),
+    'block': (200, None), 'block3': (0, 500), 'expr': (1500, None),
+    'prog': (40, 400), 'corpus': (2000, 6000),
 }
 
 
